@@ -596,6 +596,26 @@ func (c *ctx) ifStmt(x *ast.IfStmt) {
 		}
 		fail(c.p, x, "unsupported if statement %s", render(c.p, x))
 	}
+	// if len(o.Nodes) != 1 { return nil, fmt.Errorf(...) }
+	if be, ok := x.Cond.(*ast.BinaryExpr); ok && x.Else == nil && len(x.Body.List) == 1 {
+		if arg, ok := c.lenOf(be.X); ok {
+			if f, ok := c.targetField(arg); ok {
+				if n, ok := c.constInt(be.Y); ok {
+					if rs, ok := x.Body.List[0].(*ast.ReturnStmt); ok && len(rs.Results) == 2 {
+						if r0, ok := rs.Results[0].(*ast.Ident); ok && r0.Name == "nil" {
+							if _, ok := isCall(rs.Results[1], "fmt", "Errorf"); ok {
+								if _, dup := c.guards[f]; dup {
+									fail(c.p, x, "two guards on %s", f)
+								}
+								c.guards[f] = fmt.Sprintf("(Some (%s, %s))", q(be.Op.String()), n)
+								return
+							}
+						}
+					}
+				}
+			}
+		}
+	}
 	// if len(params) > 0 { url += "&" + params }
 	if be, ok := x.Cond.(*ast.BinaryExpr); ok && be.Op == token.GTR && x.Else == nil {
 		if arg, ok := c.lenOf(be.X); ok {
@@ -1096,6 +1116,57 @@ func translateGetFromAPI(p *tr.Pkg, decls map[string]*ast.FuncDecl) apiInfo {
 				continue
 			}
 			fail(p, x, "getFromAPI: unsupported if statement %s", render(p, x))
+		case *ast.SwitchStmt:
+			se, ok := x.Tag.(*ast.SelectorExpr)
+			if !ok || se.Sel.Name != "StatusCode" || x.Init != nil {
+				fail(p, x, "getFromAPI: switch on something other than the status code")
+			}
+			if sawOther {
+				fail(p, x, "getFromAPI: status switch after the catch-all")
+			}
+			for _, cl := range x.Body.List {
+				cc := cl.(*ast.CaseClause)
+				body := cc.Body
+				if len(body) == 1 {
+					if bs, ok := body[0].(*ast.BranchStmt); ok && bs.Tok == token.BREAK && bs.Label == nil {
+						body = nil
+					}
+				}
+				if cc.List == nil { // default
+					if len(body) != 1 {
+						fail(p, cc, "getFromAPI: default case does not return")
+					}
+					rs, ok := body[0].(*ast.ReturnStmt)
+					if !ok || retType(rs) == "" {
+						fail(p, cc, "getFromAPI: default case does not return &T{...}")
+					}
+					a.otherType = retType(rs)
+					sawOther = true
+					continue
+				}
+				for _, v := range cc.List {
+					tv := p.Info.Types[v]
+					if tv.Value == nil || tv.Value.Kind() != constant.Int {
+						fail(p, cc, "getFromAPI: non-constant status case")
+					}
+					code := tv.Value.ExactString()
+					if len(body) == 0 {
+						if a.okCode != "" {
+							fail(p, cc, "getFromAPI: two success statuses")
+						}
+						a.okCode = code
+						continue
+					}
+					rs, ok := body[0].(*ast.ReturnStmt)
+					if !ok || len(body) != 1 || retType(rs) == "" {
+						fail(p, cc, "getFromAPI: status case does not return &T{...}")
+					}
+					a.rules = append(a.rules, [2]string{code, retType(rs)})
+				}
+			}
+			if !sawOther || a.okCode == "" {
+				fail(p, x, "getFromAPI: status switch without a success case and a default")
+			}
 		case *ast.AssignStmt:
 			ast.Inspect(x, func(n ast.Node) bool {
 				if ce, ok := n.(*ast.CallExpr); ok {
